@@ -500,6 +500,28 @@ def impl_values(backend, prec, pts):
     ind = pyhf.probability.Independent(pyhf.probability.Poisson(lam)).log_prob(n)
     out['independent'] = dict(total=lst(ind), pieces=lst(tl.poisson_logpdf(n, lam)))
     out['type_ok'] = isinstance(tl.poisson_logpdf(n, lam), type(tl.astensor([0.0])))
+    # the primitives are functions of the VALUES handed to them: one tensor object refilled in place between two calls (a preallocated
+    # toy buffer) must give what fresh tensors of the same values give
+    out['inplace'] = None
+    if backend in ('numpy', 'pytorch'):
+        sel = [p for p in pts['poisson'] if p['set'] == 'A' and p['lam'] > 1e-3][:8]
+        if len(sel) >= 4:
+            h = len(sel) // 2
+            first, second = sel[:h], sel[h:2 * h]
+            buf_n, buf_l = arr(p['n'] for p in first), arr(p['lam'] for p in first)
+            tl.poisson_logpdf(buf_n, buf_l)
+            pyhf.probability.Poisson(buf_l).log_prob(buf_n)
+            xb, mb, sb = arr([0.5] * h), arr([0.0] * h), arr([1.0] * h)
+            tl.normal_logpdf(xb, mb, sb)
+            for j, p in enumerate(second):
+                buf_n[j] = float(p['n'])
+                buf_l[j] = float(p['lam'])
+                xb[j] = 0.25 * (j + 1)
+            out['inplace'] = dict(
+                poisson=lst(tl.poisson_logpdf(buf_n, buf_l)), poisson_fresh=lst(tl.poisson_logpdf(arr(p['n'] for p in second), arr(p['lam'] for p in second))),
+                dist=lst(pyhf.probability.Poisson(buf_l).log_prob(buf_n)),
+                normal=lst(tl.normal_logpdf(xb, mb, sb)), normal_fresh=lst(tl.normal_logpdf(arr(0.25 * (j + 1) for j in range(h)), arr([0.0] * h), arr([1.0] * h))),
+                args=[dict(n=p['n'], lam=p['lam']) for p in second])
     return out
 
 
@@ -593,6 +615,13 @@ def compare_all(backend, prec, pts, got):
         # relative accuracy down to the smallest normal number; below it (subnormal results) only the absolute error is bounded
         t = (Fraction(REL[prec]) + Fraction(KULP[prec] * EPS[prec]) * fr(cdf_cond(p))) * p['ref'] + Fraction(TINY[prec]) + p['ref_err']
         chk('cdf', 'cdf', i, p, v, p['ref'], t)
+    ip = got.get('inplace')
+    if ip:
+        ncmp += 3
+        for what, a, b in (('poisson.log', ip['poisson'], ip['poisson_fresh']), ('poisson.dist', ip['dist'], ip['poisson_fresh']), ('normal.log', ip['normal'], ip['normal_fresh'])):
+            if len(a) != len(b) or any(not finite(x) or not finite(y) or abs(x - y) > 1e-12 * max(1.0, abs(y)) for x, y in zip(a, b)):
+                bad.append(dict(func=what, backend=backend, prec=prec, args=dict(refilled_in_place=ip['args']), impl=a, expected=b[0] if b else None, tol=1e-12,
+                                regime='same-tensor-object-refilled-in-place', reference='fresh tensors of the same values', expected_all=b))
     z = got['rate0']
     for n, l, e, d in zip(z['n'], z['log'], z['nonlog'], z['dist']):
         ncmp += 2
@@ -790,6 +819,16 @@ def replay(body):
     tl = pyhf.tensorlib
     a = body['args']
     f = body['func']
+    if 'refilled_in_place' in a:
+        pts = a['refilled_in_place']
+        buf_n, buf_l = tl.astensor([1.0] * len(pts)), tl.astensor([2.0] * len(pts))
+        tl.poisson_logpdf(buf_n, buf_l)
+        for j, q in enumerate(pts):
+            buf_n[j] = float(q['n'])
+            buf_l[j] = float(q['lam'])
+        fresh = tl.poisson_logpdf(tl.astensor([q['n'] for q in pts]), tl.astensor([q['lam'] for q in pts]))
+        print(dict(refilled=tl.tolist(tl.poisson_logpdf(buf_n, buf_l)), fresh=tl.tolist(fresh)))
+        return 0
     if f.startswith('normal.'):
         args = [tl.astensor([a['x']]), tl.astensor([a['mu']]), tl.astensor([a['sigma']])]
         v = dict(log=tl.normal_logpdf, nonlog=tl.normal, dist=lambda x, m, s: pyhf.probability.Normal(m, s).log_prob(x))[f.split('.')[1]](*args)
